@@ -354,6 +354,10 @@ def tableform_case(n, layout, history=False):
     text += "[Table-Form:tabA]\ninterpolation : cubic_spline\nx : %s\ny : %s\n\n" % (sx, sy)
   if layout in ("xy", "both"):
     text += "[Table-Form:tabB]\nxy : %s\n\n" % sxy
+  if layout == "xy3":
+    # the same data wrapped three values to a line (pairs straddle the line breaks)
+    flat = [repr(v) for pair in zip(xt, yt) for v in pair]
+    text += "[Table-Form:tabB]\nxy : %s\n\n" % "\n     ".join(" ".join(flat[i:i + 3]) for i in range(0, len(flat), 3))
   cp = ConfigParser(io.StringIO(text))
   tuples = cp.table_form      # real _parse_section/_parse_data/_parse_x_y/_parse_xy
   shims.install()
@@ -525,7 +529,7 @@ def cases(tier, seed=0):
   for steps in ((10,) if q else (3, 7, 10, 12)):
     cs.append(Case("plot rows under floating point steps=%d" % steps, plot_fp_case, steps=steps, timeout_s=60 if q else 300))
   for n in ((3, 4, 5) if q else range(3, 9)):
-    for layout in ("x_y", "xy", "both"):
+    for layout in ("x_y", "xy", "both", "xy3"):
       cs.append(Case("tableform %d %s" % (n, layout), tableform_case, n=n, layout=layout))
     cs.append(Case("tableform %d both history" % n, tableform_case, n=n, layout="both", history=True))
   t = 45 if q else 400
